@@ -226,6 +226,31 @@ def narrow_store_rule(chk, prog, rule="NARROW"):
     chk.floor("stores of variable values into configuration fields", n, 2)
 
 
+def init_rule(chk, prog, fields, rule="INIT", what="every field of the instance"):
+    """creation initialises the given fields on every successful path"""
+    create = prog.fn("asm_create_instance")
+    inst = None
+    for m in walk(prog.body(create)):
+        if m.get("kind") == "VarDecl" and "assemblyline" in qtype(m):
+            inst = m["name"]
+            break
+    if inst is None:
+        chk.broken(rule, rule + "/create", loc_str(create), "asm_create_instance allocates the instance into a local", "no local of instance type")
+        return
+    dom = InitDomain(inst, prog)
+    Flow(dom).function(prog, create, frozenset())
+    nsucc = 0
+    for n, s in dom.rets:
+        v = ConstEval(prog).try_eval(strip(kids(n)[0], casts=True)) if kids(n) else None
+        if v == 0:
+            continue
+        nsucc += 1
+        missing = [f for f in fields if f not in s]
+        chk.require(not missing, rule, "%s/create@%s" % (rule, loc_str(n)), loc_str(n),
+                    "a successful asm_create_instance has assigned %s" % what, "unassigned: %s" % missing)
+    chk.floor("successful returns of asm_create_instance", nsucc, 1)
+
+
 def run(chk, prog, tier):
     roles = PL.Roles(prog)
     chk.analysed["roles"] = roles.describe()
@@ -280,27 +305,7 @@ def run(chk, prog, tier):
         chk.require(not extra, "FIELDS", "FIELDS/writes/%s" % fn, loc_str(prog.fn(fn)),
                     "%s writes only known instance fields" % fn, "writes %s" % sorted(extra))
     # creation initialises every field on every successful path
-    create = prog.fn("asm_create_instance")
-    inst = None
-    for m in walk(prog.body(create)):
-        if m.get("kind") == "VarDecl" and "assemblyline" in qtype(m):
-            inst = m["name"]
-            break
-    if inst is None:
-        chk.broken("INIT", "INIT/create", loc_str(create), "asm_create_instance allocates the instance into a local", "no local of instance type")
-    else:
-        dom = InitDomain(inst, prog)
-        Flow(dom).function(prog, create, frozenset())
-        nsucc = 0
-        for n, s in dom.rets:
-            v = ConstEval(prog).try_eval(strip(kids(n)[0], casts=True)) if kids(n) else None
-            if v == 0:
-                continue
-            nsucc += 1
-            missing = [f for f in fields if f not in s]
-            chk.require(not missing, "INIT", "INIT/create@%s" % loc_str(n), loc_str(n),
-                        "a successful asm_create_instance has assigned every field of the instance", "unassigned: %s" % missing)
-        chk.floor("successful returns of asm_create_instance", nsucc, 1)
+    init_rule(chk, prog, fields)
     # destroy touches only its argument
     de = fx.get("asm_destroy_instance")
     if de is not None:
